@@ -38,7 +38,7 @@ Definition run_spec (v : vspec) (rs : list record) : list orec :=
   | SUniq gs c n out => verb_uniq gs c n out rs
   | SCountDistinctU fs => verb_count_distinct_u fs rs
   | SCountSimilar gs out => verb_count_similar gs out rs
-  | SStats1 i accs fs gs => verb_stats1 i (uniq_accs accs) (uniq_names fs) gs rs       (* names given twice are kept once (fix: 354e61d24) *)
+  | SStats1 i accs fs gs => verb_stats1 i (uniq_accs accs) (uniq_names fs) gs rs       (* names given twice are kept once (fix: df62dcee7) *)
   | SStats1W i accs fs gs n => verb_stats1_w i (uniq_accs accs) (uniq_names fs) gs n rs
   | SAcc i a vs => [[(B "r", run_acc i a vs)]]
   | SPctls i ps vs => let d := sort_vals vs in
